@@ -1,6 +1,8 @@
 """Metadata generation, an independent tree writer, and line framing."""
 
-KEYS = ['id', 'snt', 'tok', 'lang', 'save-date', 'annotator', 'note', 'alignments', 'x']
+KEYS = ['id', 'snt', 'tok', 'lang', 'save-date', 'annotator', 'note', 'alignments', 'x',
+        # keys end at the first ASCII blank: other white space belongs to the key
+        'k\u00a0x', 'id\u3000z', 'f\x1fg']
 WORDS = ['The', 'dog', 'barked', 'loudly', 'x', '42', 'naïve', '日本', 'a-b', 'end.']
 SPECIALS = [';', '(', ')', '"', '#', '( unbalanced', 'a:b', ':', '~e.1', '/', '\\', "'", '\t',
             '# : :', ' ;; ', '\u00a0', ': :', '\u3000']
